@@ -57,7 +57,7 @@ SW_HEADS = ["--opt=", "--file=", "-I", "key:", "--level=", "@", "--set-", "of=",
 SW_SEPS = [",", ":", "=", "..", "-", "/"]
 NT_NAMES = ["ARG", "REF", "HOST", "USER", "FILE", "ITEM", "THING"]
 DECOR = ["plain", "plain", "plain", "extra_words", "noop_prefix", "and_prefix", "odd_spacing", "newline_inside", "trailing_semicolon",
-         "multiline_arg", "heredoc_arg"]
+         "multiline_arg", "heredoc_arg", "exit_after", "ifs_change"]
 BEHAVIOURS = ["plain", "plain", "plain", "exit_nonzero", "stderr_noise", "empty", "empty_nonzero", "tab_descr", "dups", "spaces", "large", "dash",
               "exit_and_stderr", "prefix_chain", "wordbreak_chars"]
 
@@ -75,6 +75,7 @@ class Gen:
         self.used_nt = set()
         self.anys = 0
         self.subdefs = []      # (name, node): <name> = printed subtree; the occurrence prints as <name>
+        self.last_plp = None
 
     def lit(self):
         self.nlit += 1
@@ -163,6 +164,17 @@ class Gen:
                     if first_k is None:
                         first_k, first_i = k, i
         leaf.parts = parts
+        if shape == "PLP" and parts[0][1] != parts[2][1]:
+            self.last_plp = leaf
+        return leaf
+
+    def mirrored(self, src):
+        """A second within-word expression made of the SAME pieces as `src` in the opposite order (`<A>:<B>` / `<B>:<A>`):
+        two automata with equal input sets and equal shape that must nevertheless stay two automata."""
+        leaf = Leaf("sw", parts=[src.parts[2], src.parts[1], src.parts[0]])
+        for i, j in ((0, 2), (2, 0)):
+            if (id(src), j) in self.nt_of:
+                self.nt_of[(id(leaf), i)] = self.nt_of[(id(src), j)]
         return leaf
 
     def leaf(self, allow_any):
@@ -237,6 +249,11 @@ def command_text(k, info, rng_unused=None):
         return ":\n    " + base
     if d == "trailing_semicolon":
         return base + " ;"
+    if d == "exit_after":
+        # every command runs in its own subshell: ending it must not affect the other commands asked at the same point
+        return base + "; exit 0"
+    if d == "ifs_change":
+        return "IFS=:x; " + base
     return base
 
 
@@ -313,6 +330,11 @@ def gen_case(rng):
         else:
             tail = Leaf("lit", text=g.lit())
         variants[0] = Node("seq", [loop, tail])
+    if g.last_plp is not None and rng.chance(2, 3):
+        # `get <A>:<B> | put <B>:<A>`
+        a, b = Leaf("lit", text=g.lit()), Leaf("lit", text=g.lit())
+        variants.append(Node("alt", [Node("seq", [a, g.mirrored(g.last_plp)]), Node("seq", [b, g.mirrored(g.mirrored(g.last_plp))])]))
+        nvar += 1
     root = variants[0] if nvar == 1 else Node("alt", variants)
     cmdtext = {k: command_text(k, info) for k, info in enumerate(g.probes)}
     name = rng.choice(["cmd", "tool", "my-cmd", "t_1"])
